@@ -457,6 +457,99 @@ func vfC08ListenerFlood(res *vfResult, ver string) {
 	}
 }
 
+// vfC08ListenerEmptyDatagram (real time, loopback UDP): a connection served through a listener receives zero-length
+// datagrams from its peer's address (anybody can send those). They cannot be parsed as DTLS records: they are dropped
+// and the connection keeps serving.
+func vfC08ListenerEmptyDatagram(res *vfResult, ver string) {
+	res.Eval(1)
+	pki := vfGetPKI()
+	so := vfSO(append(vfVerOpts(ver), WithCertificates(pki.Leaf("ecdsa", "server")))...)
+	ln, err := ListenWithOptions("udp", &net.UDPAddr{IP: net.IPv4(127, 0, 0, 1)}, so...)
+	if err != nil {
+		res.Inconc("listener: " + err.Error())
+
+		return
+	}
+	defer func() { _ = ln.Close() }()
+	sock, err := net.ListenUDP("udp", &net.UDPAddr{IP: net.IPv4(127, 0, 0, 1)})
+	if err != nil {
+		res.Inconc("client socket: " + err.Error())
+
+		return
+	}
+	co := vfCO(append(vfVerOpts(ver), WithInsecureSkipVerify(true))...)
+	cc, err := ClientWithOptions(sock, ln.Addr(), co...)
+	if err != nil {
+		res.Inconc("client: " + err.Error())
+
+		return
+	}
+	defer func() { _ = cc.Close() }()
+	type acc struct {
+		c   net.Conn
+		err error
+	}
+	ch := make(chan acc, 1)
+	go func() {
+		c, err := ln.Accept()
+		if err == nil {
+			if dc, ok := c.(*Conn); ok {
+				_ = dc.SetDeadline(time.Now().Add(10 * time.Second))
+				err = dc.Handshake()
+			}
+		}
+		ch <- acc{c, err}
+	}()
+	_ = cc.SetDeadline(time.Now().Add(10 * time.Second))
+	if err := cc.Handshake(); err != nil {
+		res.Count("listener_empty_handshake_failed", 1)
+
+		return
+	}
+	a := <-ch
+	if a.err != nil {
+		res.Count("listener_empty_handshake_failed", 1)
+
+		return
+	}
+	srv, _ := a.c.(*Conn)
+	defer func() { _ = srv.Close() }()
+	id := "listener-empty-datagram/" + ver
+	res.NonTrivial(id)
+	read := func(want string) string {
+		buf := make([]byte, 256)
+		_ = srv.SetReadDeadline(time.Now().Add(3 * time.Second))
+		for {
+			n, err := srv.Read(buf)
+			if err != nil {
+				return err.Error()
+			}
+			if string(buf[:n]) == want {
+				return ""
+			}
+		}
+	}
+	_ = cc.SetDeadline(time.Time{})
+	if _, err := cc.Write([]byte("before")); err != nil || read("before") != "" {
+		res.Count("listener_empty_warmup_failed", 1)
+
+		return
+	}
+	for i := 0; i < 3; i++ {
+		_, _ = sock.WriteTo(nil, ln.Addr())
+	}
+	time.Sleep(50 * time.Millisecond)
+	res.Count("injected/empty-datagram-at-listener", 3)
+	_, werr := cc.Write([]byte("after"))
+	if msg := read("after"); werr != nil || msg != "" {
+		res.Violate("C08:est-stops-serving-after-discardable-input:listener-empty-datagram",
+			fmt.Sprintf("%s: after three zero-length datagrams from its peer's address the connection accepted through the listener no longer delivers data: client Write err=%v, server Read: %s", id, werr, msg),
+			map[string]any{"listener_empty": ver})
+	} else {
+		res.Count("listener_empty_still_serving", 1)
+	}
+}
+
 func vfVerClass(v vfVariant) string {
 	if v.Cfg.Is13() {
 		return "dtls13"
@@ -855,6 +948,8 @@ func TestVF_C08(t *testing.T) {
 	if len(only) == 0 {
 		vfC08ListenerFlood(res, "12")
 		vfC08ListenerFlood(res, "13")
+		vfC08ListenerEmptyDatagram(res, "12")
+		vfC08ListenerEmptyDatagram(res, "13")
 	}
 	res.Count("heap_delta_kb", int64(vfHeap()-heap0)/1024)
 	if len(only) == 0 {
